@@ -45,29 +45,29 @@ func c18(c *Check) {
 
 	c.Rule("C18/type-and-existence-guards", "create rejects an existing chain name; upgrade rejects unknown client and differing type; toggle rejects unknown client and equal type; all before any write; the three proposals' ValidateBasic validate the chain name and the client state", 16)
 	c.Spec("C18/type-and-existence-guards", m, FnSpec{Fn: clKeeper + "Keeper.UpgradeClient",
-		Guards: []G{{"not-found", "reject !{OLD}#1"}, {"type-differs", "reject (iface:xibc/exported.ClientState.ClientType($3) != iface:xibc/exported.ClientState.ClientType({OLD}#0))"}},
+		Guards:  []G{{"not-found", "reject !{OLD}#1"}, {"type-differs", "reject (iface:xibc/exported.ClientState.ClientType($3) != iface:xibc/exported.ClientState.ClientType({OLD}#0))"}},
 		Effects: []Eff{{Label: "write-after-guards", Callee: "keeper.(Keeper).SetClientState", N: 1, Under: []string{"{OLD}#1", "(iface:xibc/exported.ClientState.ClientType($3) == iface:xibc/exported.ClientState.ClientType({OLD}#0))"}}},
 	})
 	c.Spec("C18/type-and-existence-guards", m, FnSpec{Fn: clKeeper + "Keeper.ToggleClient",
-		Guards: []G{{"not-found", "reject !{OLD}#1"}, {"type-equal", "reject (iface:xibc/exported.ClientState.ClientType($3) == iface:xibc/exported.ClientState.ClientType({OLD}#0))"}},
+		Guards:  []G{{"not-found", "reject !{OLD}#1"}, {"type-equal", "reject (iface:xibc/exported.ClientState.ClientType($3) == iface:xibc/exported.ClientState.ClientType({OLD}#0))"}},
 		Effects: []Eff{{Label: "write-after-guards", Callee: "keeper.(Keeper).SetClientState", N: 1, Under: []string{"{OLD}#1", "(iface:xibc/exported.ClientState.ClientType($3) != iface:xibc/exported.ClientState.ClientType({OLD}#0))"}}},
 	})
 	hm := Macros{"HAS": "client/keeper.(Keeper).GetClientState($0, $1, $2.ChainName)#1",
 		"CS": "client/types.UnpackClientState($2.ClientState)", "CONS": "client/types.UnpackConsensusState($2.ConsensusState)"}
 	c.Spec("C18/type-and-existence-guards", hm, FnSpec{Fn: clKeeper + "Keeper.HandleCreateClient",
-		Guards: []G{{"exists", "reject {HAS}"}, {"unpack-client", "reject ({CS}#1 != nil)"}, {"unpack-consensus", "reject ({CONS}#1 != nil)"}},
+		Guards:  []G{{"exists", "reject {HAS}"}, {"unpack-client", "reject ({CS}#1 != nil)"}, {"unpack-consensus", "reject ({CONS}#1 != nil)"}},
 		Effects: []Eff{{Label: "CreateClient", Callee: "keeper.(Keeper).CreateClient", N: 1, Args: map[int]string{1: "$1", 2: "$2.ChainName", 3: "{CS}#0", 4: "{CONS}#0"}, Under: []string{"!{HAS}"}, Err: true}},
 	})
 	c.Spec("C18/type-and-existence-guards", hm, FnSpec{Fn: clKeeper + "Keeper.HandleUpgradeClient",
 		Effects: []Eff{{Label: "UpgradeClient", Callee: "keeper.(Keeper).UpgradeClient", N: 1, Args: map[int]string{1: "$1", 2: "$2.ChainName", 3: "{CS}#0", 4: "{CONS}#0"}, Err: true}},
 	})
 	c.Spec("C18/type-and-existence-guards", hm, FnSpec{Fn: clKeeper + "Keeper.HandleToggleClient",
-		Guards: []G{{"not-found", "reject !{HAS}"}},
+		Guards:  []G{{"not-found", "reject !{HAS}"}},
 		Effects: []Eff{{Label: "ToggleClient", Callee: "keeper.(Keeper).ToggleClient", N: 1, Args: map[int]string{1: "$1", 2: "$2.ChainName", 3: "{CS}#0", 4: "{CONS}#0"}, Under: []string{"{HAS}"}, Err: true}},
 	})
 	for _, t := range []string{"CreateClientProposal", "UpgradeClientProposal", "ToggleClientProposal"} {
 		c.Spec("C18/type-and-existence-guards", Macros{}, FnSpec{Fn: "x/xibc/core/client/types." + t + ".ValidateBasic",
-			Guards: []G{{"chain-name", "reject (core/host.ClientIdentifierValidator($0.ChainName) != nil)"}, {"unpack", "reject (client/types.UnpackClientState($0.ClientState)#1 != nil)"}},
+			Guards:  []G{{"chain-name", "reject (core/host.ClientIdentifierValidator($0.ChainName) != nil)"}, {"unpack", "reject (client/types.UnpackClientState($0.ClientState)#1 != nil)"}},
 			Returns: []Ret{{Label: "validate", Index: 0, Want: []string{"iface:xibc/exported.ClientState.Validate(client/types.UnpackClientState($0.ClientState)#0)"}}},
 		})
 	}
